@@ -66,7 +66,9 @@ def strategy(draw):
                 dist_mc=draw(st.sampled_from(["lognormal", "normal"])), dist_fn=draw(st.sampled_from(["lognormal", "normal"])),
                 normalize=draw(st.booleans()), by_az=draw(st.booleans()), range=draw(st.sampled_from([None, None, "bounded"])),
                 kw=draw(st.sampled_from([None, None, {"height-cap": 0.6}, {"height-cap-mean": 0.9}, {"height-cap-mean": 0.8}, {"prominence": 1.5}, {"width": 3}])),
-                two_peaks=dict(centre=draw(gen.floats(0.72, 0.85)), ratio=draw(gen.floats(0.45, 0.7))))
+                two_peaks=dict(centre=draw(gen.floats(0.72, 0.85)), ratio=draw(gen.floats(0.45, 0.7))),
+                # one azimuth refined on its own afterwards (az.hvsrs[k].update_peaks_bounded): members then differ in their search range
+                member_range=draw(st.one_of(st.none(), st.tuples(st.integers(0, 5), st.sampled_from(["upper-half", "lower-half", "narrow"])))))
 
 
 def _build(hv, case):
@@ -94,6 +96,12 @@ def _build(hv, case):
         rng = (float(f[2]), float(f[-3])) if case["range"] == "bounded" else (None, None)
         obj.update_peaks_bounded(rng, kw)
     members = obj.hvsrs if case["kind"] == "azimuthal" else ([obj] if case["kind"] == "traditional" else [])
+    mr = case.get("member_range")
+    if mr and case["kind"] == "azimuthal" and len(members) >= 2:
+        k = 1 + mr[0] % (len(members) - 1)
+        n_ = len(f)
+        lo_i, hi_i = {"upper-half": (n_ // 2, n_ - 2), "lower-half": (1, n_ // 2), "narrow": (n_ // 3, 2 * n_ // 3)}[mr[1]]
+        members[k].update_peaks_bounded((float(f[lo_i]), float(f[hi_i])), kw)
 
     def apply_masks(all_with_peak=False):
         for t, m, pm in zip(members, case["masks"], case["pmasks"]):
@@ -250,7 +258,7 @@ def check_case(case):
     import hvsrpy.postprocessing as pp
     obj, members, f = _build(hv, case)
     kind, func = case["kind"], case["func"]
-    labels = [func, kind]
+    labels = [func, kind] + (["member-refined-alone"] if case.get("member_range") and kind == "azimuthal" and len(members) >= 2 else [])
     opts = case["opts"]
     nwin = members[0].n_curves if members else 1
     g = np.random.Generator(np.random.PCG64(case["groups"][0]["seed"]))
